@@ -148,3 +148,18 @@ func c01D01Tuples(ctx *Ctx, n int, do func(op string, o, w []cty.Value)) {
 		}
 	}
 }
+
+// c01HasElementScope: "in" when the paired run satisfies the hypotheses of
+// C01.sound_hasElement_partial — the set kept or not known; the needle kept, or not
+// known and of the needle's own type or the dynamic pseudo-type
+func c01HasElementScope(os, ws []cty.Value, wo, ww []string) string {
+	su, _ := ws[0].Unmark()
+	setOK := wo[0] == ww[0] || !su.IsKnown()
+	eu, _ := ws[1].Unmark()
+	oe, _ := os[1].Unmark()
+	needleOK := wo[1] == ww[1] || (!eu.IsKnown() && (eu.Type().Equals(oe.Type()) || eu.Type() == cty.DynamicPseudoType))
+	if setOK && needleOK {
+		return "in"
+	}
+	return "out"
+}
